@@ -232,15 +232,18 @@ def observe(fns, o):
     return "[k %s][c %s][w %s][g %s]" % (ks, ch, wk, gv)
 
 
-def below(M, o, prefix=()):
+def below(M, o, prefix=(), _seen=None):
     """every object strictly below a container, pre-order over _dict (hidden children included), with the names
-    on the way"""
+    on the way.  A container met again on its own path (structure shared so that the "tree" has a cycle — reported by
+    the separation oracle) is not descended into a second time."""
     out = []
+    seen = (_seen or set()) | {id(o)}
     if is_cont(M, o):
         for c in o._dict.values():
             p = prefix + (c.name,)
             out.append((p, c))
-            out.extend(below(M, c, p))
+            if id(c) not in seen:
+                out.extend(below(M, c, p, seen))
     return out
 
 
